@@ -1,6 +1,7 @@
 from abc import abstractmethod
 from typing import Any, Hashable, Sequence
 
+import numpy as np
 from numpy.random import Generator
 from typing_extensions import Self
 
@@ -305,6 +306,7 @@ class BaseModelCrossSet(BaseModel):
         # Preprocess data
         X = self.preprocessor1.fit_transform(X, self.sample_dims, weights_X)
         Y = self.preprocessor2.fit_transform(Y, self.sample_dims, weights_Y)
+        self._check_missing_samples()
         # Perform PCA
         X = self.pca1.fit_transform(X)
         Y = self.pca2.fit_transform(Y)
@@ -321,6 +323,31 @@ class BaseModelCrossSet(BaseModel):
             self._post_compute()
 
         return self
+
+    def _check_missing_samples(self) -> None:
+        """Refuse fully missing samples that are not shared by X and Y.
+
+        Each preprocessor drops its own all-NaN samples and the two fields are
+        then paired by position, so a sample missing in only one field would
+        pair every later sample with the wrong partner.
+        """
+        if not all(self.get_params()["check_nans"]):
+            return
+
+        def valid_samples(preprocessor):
+            masks = [
+                np.asarray(s.is_valid_sample.values)
+                for s in preprocessor.sanitizer.transformers
+            ]
+            return np.logical_and.reduce(masks)
+
+        valid1 = valid_samples(self.preprocessor1)
+        valid2 = valid_samples(self.preprocessor2)
+        if valid1.shape != valid2.shape or (valid1 != valid2).any():
+            raise ValueError(
+                "X and Y have fully missing (NaN) samples at different positions."
+                " Remove these samples from both datasets before fitting."
+            )
 
     def transform(
         self, X: DataObject | None = None, Y: DataObject | None = None, normalized=False
